@@ -512,8 +512,11 @@ class DocutilsRenderer(RendererProtocol):
         for token in tokens or []:
             if token.type == "text":
                 result += token.content
-            elif token.type == "softbreak":
+            elif token.type in ("softbreak", "hardbreak"):
                 result += "\n"
+            elif token.type == "code_inline":
+                # a leaf without children: its content is part of the plain text
+                result += token.content
             # elif token.type == "image":
             #     result += self.renderInlineAsText(token.children)
             else:
